@@ -50,7 +50,7 @@ fn st_line(s: &St) -> Vec<String> {
     }
 }
 
-fn gen_p(rng: &mut Rng, u: &[&str]) -> Vec<String> { sv(&[*rng.pick(u), *rng.pick(&["d1", "d2"]), "read", *rng.pick(&["allow", "allow", "deny"])]) }
+fn gen_p(rng: &mut Rng, u: &[&str]) -> Vec<String> { sv(&[*rng.pick(u), *rng.pick(&["d1", "d2", "d1", "d2", "alice"]), "read", *rng.pick(&["allow", "allow", "deny"])]) }
 
 fn gen_step(rng: &mut Rng) -> St {
     let subs = ["alice", "bob", "admin"];
@@ -107,6 +107,8 @@ pub fn run(rec: &mut Recorder, w: &mut World, tier: &str, seed: u64) {
     let mut rng = Rng::new(seed);
     let mut reqs = vec![];
     for s in ["alice", "bob", "admin"] { for o in ["d1", "d2"] { reqs.push(sv(&[s, o, "read"])); } }
+    // the same values in other positions and repeated values: distinct requests whose field multisets collide
+    for r in [["d1", "alice", "read"], ["read", "d1", "alice"], ["alice", "alice", "read"], ["bob", "bob", "read"], ["d1", "d1", "read"], ["d2", "admin", "read"]] { reqs.push(sv(&r)); }
     let reqf = reqs_field(&reqs);
     // exhaustive: every history of length <= L over a fixed alphabet covering the whole mutating surface
     let subs = ["alice", "bob", "admin"];
@@ -114,6 +116,7 @@ pub fn run(rec: &mut Recorder, w: &mut World, tier: &str, seed: u64) {
     let fixed: Vec<St> = vec![
         St::M(MOp::Add("p".into(), "p".into(), sv(&["alice", "d1", "read", "allow"]))),
         St::M(MOp::Add("p".into(), "p".into(), sv(&["admin", "d2", "read", "allow"]))),
+        St::M(MOp::Add("p".into(), "p".into(), sv(&["alice", "alice", "read", "allow"]))),
         St::M(MOp::Add("p".into(), "p2".into(), sv(&["bob", "d1", "read", "allow"]))),
         St::M(MOp::Add("g".into(), "g".into(), sv(&["alice", "admin"]))),
         St::M(MOp::Rm("p".into(), "p".into(), sv(&["alice", "d1", "read", "allow"]))),
